@@ -477,11 +477,11 @@ CONC_RULE = ("CONCURRENCY: scenarios of 1-3 corpus functions (real macro expansi
              "hit+miss conservation, and the execution history are checked. Distinct = distinct (function set, schedule trace hash). ")
 
 L1_RULE = ("generated lookup/store/advance histories (40-200 ops + fill probe, re-stores of live keys with new values, time steps aimed at ttl-1ns / ttl / ttl+1ns) "
-           "for every configuration in focus out of the product flavour(3) x policy(6) x limit{none,1..4} x ttl{none,1..3} x max_memory{none,120,200,400} x frequency_weight(6, TLRU), "
+           "for every configuration in focus out of the product flavour(3) x policy(6) x limit{none,1..4} x ttl{none,1..3} x max_memory{none,120,200,400} x frequency_weight(6, TLRU), plus 420 configurations with ttls of 2^32..u64::MAX seconds (never expire), "
            "run on the real engines (GlobalCache / ThreadLocalCache / AsyncGlobalCache) with harness-owned storage and a virtual clock; after every operation the result, the whole store "
            "(keys, values) and the hit/miss counters are compared with the specification model (belief monitor). ")
 
-L2_RULE = ("MACRO LEVEL: generated multi-cache histories (30-120 operations + closing sweep) over groups of 1-6 functions of a generated corpus of 456 #[cache]/#[cache_async] functions "
+L2_RULE = ("MACRO LEVEL: generated multi-cache histories (30-120 operations + closing sweep) over groups of 1-6 functions of a generated corpus of 492 #[cache]/#[cache_async] functions "
            "(attribute presence/values x 10 argument shapes x free fn/&self/&mut self/self x 10 return kinds), calls issued from 1-4 worker threads (serialised), bodies scripted by the harness "
            "(fresh value per execution or deterministic, Ok/Err, payload size, cache_if and invalidate_on verdicts), virtual clock, conditional and group invalidations, stats resets; after every "
            "operation: returned value, body executed?, predicate/check invocations, key listing (never-matching invalidate_with predicate) and stats_registry are compared with the wrapper model. ")
@@ -542,7 +542,7 @@ prop("C15", ["l2", "conc"], "exploration",
      CONC_RULE + L2_RULE + "Focus: global and async functions (custom names included): stats_registry::get(name) must equal the model's hit/miss counters after every call, invalidation and reset; a reset of one name must leave the others unchanged. Non-trivial = a comparison; distinct = distinct (function, hits, misses) triples.",
      COMMON_ASSUME, ("C15", "stats_comparisons"))
 prop("C19", ["bad", "l1", "l2"], "translation_validation",
-     "Translation validation by differential execution: (a) the generated corpus of 456 functions (attribute presence/values x 10 argument shapes x free fn/&self/&mut self/self x 10 return kinds x both macros) must compile; "
+     "Translation validation by differential execution: (a) the generated corpus of 492 functions (attribute presence/values x 10 argument shapes x free fn/&self/&mut self/self x 10 return kinds x both macros) must compile; "
      "(b) every corpus function is driven by boundary-targeted histories (limit N probed with N and N+1 keys, ttl T at T-1ns/T, max_memory with totals between the decimal and the 1024-based reading of KB, policy-separating histories, "
      "scope with several threads, name via stats_registry, tags/events/dependencies via requests, scripted cache_if / invalidate_on) and compared with the core-level model configured from the *generator's* record of the attributes; "
      "(c) 66 invalid attribute lists (unknown names, typos, invalid policy/scope/limit/ttl/max_memory) must fail cargo check while the corrected twin of each compiles; borderline lists are reported without verdict. "
